@@ -91,7 +91,9 @@ def gen_stress():
 
 
 SHORT = ["\uAC01", "\uAC00\uAC01", "\u00E9", "e\u0301", "\u212B", "a\u0327\u0301", "a\u0301\u0327", "\u1E9B\u0323", "\u0958", "\u1100\u1161\u11A8",
-         "\u00C5\u0323", "ab", "\u0344", "\u1E14", "U\u0304\u0308", "\u03B1\u0313\u0300", "q\u0323\u0323\u0323"]
+         "\u00C5\u0323", "ab", "\u0344", "\u1E14", "U\u0304\u0308", "\u03B1\u0313\u0300", "q\u0323\u0323\u0323",
+         # composition blocked by an intervening mark / starter (UAX #15 D115): L grave V, LV dot-below T, Bengali two-part vowel around a nukta, starter pair around ZWJ-less starter
+         "\u1100\u0300\u1161", "\uAC00\u0323\u11A8", "\u09C7\u09BC\u09BE", "a\u0062\u0301", "\u0112\u0323\u0300", "e\u0323\u0304\u0301", "\u1100\u1161\u0300\u11A8"]
 
 
 def gen_short():
@@ -121,7 +123,7 @@ def norm_string_jobs(prop, tier, only_fn=None):
     if prop not in ("C01", "C03", "C04", "C05", "C08", "C17") or (only_fn and only_fn != "wcsnorm_s"):
         return out
     inc = gen_short()
-    idxs = range(len(SHORT)) if tier != "quick" else [0, 1, 3, 5, 7, 10, 13, 14, 16]
+    idxs = range(len(SHORT)) if tier != "quick" else [0, 1, 3, 5, 7, 10, 13, 14, 16, 17, 18, 19, 22]
     for i in idxs:
         nfd = len(unicodedata.normalize("NFD", SHORT[i]))
         dms = sorted({1, nfd - 1, nfd, nfd + 1, nfd + 2} - {0}) if tier == "quick" else range(1, nfd + 7)
